@@ -42,14 +42,13 @@ pub(crate) const WORDS: &[&str] = &[
     "a", "b", "ab", "A", "the", "cat", "eats", "fish", "ba", "x", "´x", "x´", "ﬁsh", "é", "e\u{301}", "中", "a.", "¨",
     // multi-code-point clusters that NFKC does not compose (grapheme index != code-point index)
     "👍🏽", "x\u{301}b", "🇩🇪a",
-    // one grapheme cluster of more than 255 bytes
-    gen::GIANT,
 ];
 
 pub(crate) const PLAIN_WORDS: &[&str] = &["a", "b", "ab", "the", "cat", "eats", "fish", "ba", "x", "A", "👍🏽", "x\u{301}b"];
 
 fn sentence(max: usize) -> BoxedStrategy<Vec<String>> {
-    proptest::collection::vec(select(WORDS).prop_map(str::to_string), 0..=max).boxed()
+    // one word in 80 is a single grapheme cluster of more than 255 bytes
+    proptest::collection::vec(prop_oneof![80 => select(WORDS).prop_map(str::to_string), 1 => Just(gen::GIANT.to_string())], 0..=max).boxed()
 }
 
 pub(crate) fn corrupt(words: &[String], ops: &[(u8, u16, String)]) -> Vec<String> {
@@ -99,6 +98,25 @@ pub(crate) fn join(words: &[String], seps: &[String]) -> String {
         s.push_str(w);
     }
     s
+}
+
+/// a string of exactly 63..65 / 127..129 / 255..257 characters (word-size boundaries of bit-parallel
+/// or blocked implementations), a two-letter pattern with a few substitutions
+fn sized_string() -> BoxedStrategy<String> {
+    (select(vec![63usize, 64, 64, 65, 127, 128, 129, 255, 256, 257]), proptest::collection::vec((any::<u16>(), select(vec!['x', 'y', ' ', 'ä'])), 0..=3))
+        .prop_map(|(n, subs)| {
+            let mut v: Vec<char> = (0..n).map(|i| if i % 2 == 0 { 'a' } else { 'b' }).collect();
+            for (p, ch) in subs {
+                let i = idx16(p, n);
+                // keep the string clean: no space at the ends or next to another space
+                if ch == ' ' && (i == 0 || i + 1 == n || v[i - 1] == ' ' || v[i + 1] == ' ') {
+                    continue;
+                }
+                v[i] = ch;
+            }
+            v.into_iter().collect()
+        })
+        .boxed()
 }
 
 fn triple() -> BoxedStrategy<(String, String, String)> {
@@ -255,8 +273,8 @@ impl Prop for C13 {
                   proptest::collection::vec((any::<u16>(), select(PLAIN_WORDS).prop_map(str::to_string)), 1..=3))
                 .prop_map(|(words, replaced)| Sub::BreakCorrect { words, replaced }),
             4 => prop_oneof![12 => 0usize..=4, 1 => 5usize..=60].prop_flat_map(|n| (
-                    proptest::collection::vec(prop_oneof![gen::text(4), select(WORDS).prop_map(str::to_string)], n),
-                    proptest::collection::vec(prop_oneof![gen::text(4), select(WORDS).prop_map(str::to_string)], n),
+                    proptest::collection::vec(prop_oneof![20 => gen::text(4), 20 => select(WORDS).prop_map(str::to_string), 1 => sized_string()], n),
+                    proptest::collection::vec(prop_oneof![20 => gen::text(4), 20 => select(WORDS).prop_map(str::to_string), 1 => sized_string()], n),
                     proptest::collection::vec(any::<bool>(), n),
                     proptest::collection::vec(any::<bool>(), n),
                 )).prop_map(|(a, b, pa, pb)| Sub::Simple { a, b, pa, pb }),
